@@ -526,6 +526,15 @@ func genForge(r *rand.Rand, id string, size int, total int) []string {
 	peers := append([]int{members[0]}, members[1:]...)
 	peers = append(peers, att)
 	g.add("scn %s kind=%s acl=%s peers=%s", id, kind, acl, joinInts(peers))
+	// in half of the scenarios every member has a subscriber that queries the store from inside its
+	// handler: what a replicated event announces must be listed (rejected logs included in a batch
+	// must not be announced)
+	watched := g.pick(2) == 0
+	if watched {
+		for _, m := range members {
+			g.add("evwatch %d", m)
+		}
+	}
 	keys := g.keys(2)
 	write := func(p int) {
 		if kind == "kv" {
@@ -578,10 +587,14 @@ func genForge(r *rand.Rand, id string, size int, total int) []string {
 				base = fmt.Sprint(members[g.pick(len(members))])
 			}
 			shape := g.pick(4)
+			route := []string{"sync", "pub", "dc", "sync", "pub", "dc", "loadmore"}[g.pick(7)]
+			// (LoadMoreFrom is a local call that skips Sync: whoever makes it answers for the blocks
+			// being fetchable, so nothing unserved goes that way)
+			served := route == "loadmore"
 			// a head that names a writer but is not signed by it may point to a block nobody serves
 			// (only when it is delivered as a head: hidden behind a colluding WRITER's entry it is that
 			// writer who names an unservable ancestor, which the properties do not quantify over)
-			if (rec == "foreignkey" || rec == "mut-sig" || rec == "mut-payload") && shape < 3 && g.pick(3) == 0 {
+			if (rec == "foreignkey" || rec == "mut-sig" || rec == "mut-payload") && shape < 3 && !served && g.pick(3) == 0 {
 				g.add("forge %d recipe=own base=none k=%s v=%s", att, hx(keys[g.pick(2)]), hx(g.value()))
 				g.add("dropblock @last")
 				g.add("forge %d recipe=%s as=%d base=%s extra=@last k=%s v=%s", att, rec, as, base, hx(keys[g.pick(2)]), hx(g.value()))
@@ -590,11 +603,10 @@ func genForge(r *rand.Rand, id string, size int, total int) []string {
 			}
 			nForged++
 			q := members[g.pick(len(members))]
-			route := []string{"sync", "pub", "dc"}[g.pick(3)]
 			// a head that Sync's access check refuses may name a block that nobody serves
 			refusedAtSync := map[string]bool{"copiedid": true, "copiedblock": true, "othertype": true, "selfsigned": true,
 				"mut-identpk": true, "mut-identsig": true, "mut-identtype": true, "mut-identsigpk": true, "mut-key": true}
-			if (refusedAtSync[rec] || (rec == "own" && !isWriter[att])) && shape < 3 && g.pick(3) == 0 {
+			if (refusedAtSync[rec] || (rec == "own" && !isWriter[att])) && shape < 3 && !served && g.pick(3) == 0 {
 				g.add("dropblock @last")
 			}
 			switch shape {
@@ -608,11 +620,18 @@ func genForge(r *rand.Rand, id string, size int, total int) []string {
 				// fetched by its address, so `badhash` is only ever delivered as a head)
 				if colluder >= 0 && rec != "badhash" {
 					cw := colluder
-					g.add("forge %d recipe=honest base=%d extra=@last k=%s v=%s", cw, cw, hx(keys[0]), hx(g.value()))
+					// named as a parent (`next`) or only as a reference (`refs`) of the colluder's entry
+					how := []string{"extra", "extra", "xrefs"}[g.pick(3)]
+					g.add("forge %d recipe=honest base=%d %s=@last k=%s v=%s", cw, cw, how, hx(keys[0]), hx(g.value()))
 					g.add("inject %d heads=@last route=%s from=%d", q, route, cw)
 				} else {
 					g.add("inject %d heads=@last route=%s from=%d", q, route, att)
 				}
+			}
+		}
+		if watched {
+			for _, m := range members {
+				g.add("evflush %d", m)
 			}
 		}
 		g.obsAll(members)
